@@ -82,20 +82,20 @@ func (P) Generate(g *core.Gen) {
 		line, nt := genTreapLine(g.R, kind, 8+g.R.Intn(60))
 		g.Case("treap-"+kind, nt, line)
 	}
-	for i := g.N(40, 1200); i > 0; i-- {
+	for i := g.N(40, 600); i > 0; i-- {
 		line, nt := genHistory(g.R, 20+g.R.Intn(60), false)
 		g.Case("history", nt, line)
 	}
-	for i := g.N(8, 200); i > 0; i-- {
+	for i := g.N(8, 100); i > 0; i-- {
 		line, nt := genHistory(g.R, 15+g.R.Intn(30), true)
 		g.Case("history-mixed-cursor", nt, line)
 	}
-	for i := g.N(15, 500); i > 0; i-- {
+	for i := g.N(15, 250); i > 0; i-- {
 		line, nt := genBlocks(g.R)
 		g.Case("blocks", nt, line)
 	}
 	// schedules of readers against one writer: exploration only
-	for i := g.N(2, 30); i > 0; i-- {
+	for i := g.N(2, 20); i > 0; i-- {
 		g.Case("race-exploration", true, fmt.Sprintf("C05 race %d %d %d %d", g.R.Intn(1000), 2+g.R.Intn(4),
 			20+g.R.Intn(40), g.R.Pick(0, 400, 100000000)))
 	}
@@ -103,10 +103,10 @@ func (P) Generate(g *core.Gen) {
 		g.Case("race-detector", true, "C05 racebuild 6")
 	}
 	emit := func(class, line string) { g.Case(class, true, line) }
-	for i := g.N(3, 80); i > 0; i-- {
+	for i := g.N(5, 40); i > 0; i-- {
 		genFaultFamily(g.R, emit)
 	}
-	for i := g.N(2, 60); i > 0; i-- {
+	for i := g.N(3, 30); i > 0; i-- {
 		genImageFamily(g.R, emit)
 	}
 }
